@@ -26,6 +26,31 @@ FAMILIES = {"quick": ["ranges", "uris", "xfers", "schemas", "recinst", "recgraph
             "thorough": ["ranges", "uris", "xfers", "schemas", "recinst", "recgraphs2", "fnpos", "posshape"]}
 
 
+def compare_members(chk, fam, members, cases, obs):
+    """members: CASE records of DenMC (defined ones); cases/obs: the harness cases and observations of the same programs"""
+    total = compared = same = 0
+    for c, hc, o in zip(members, cases, obs):
+        if o.get("outcome") == "skipped":
+            continue
+        real = progs.real_outcome(o)
+        total += 1
+        if real["k"] != "OK":
+            continue                     # rejected / crashing members are C07's and C01's subject
+        compared += 1
+        diffs = absdoc.compare_docs(absdoc.expected_doc(c), absdoc.abstract_doc(o["doc"], K))
+        text = hc["files"][hc["main"]]
+        if not diffs:
+            same += 1
+            chk.cov["traces_validated_against_impl"] += 1
+            continue
+        kinds = sorted(set(k for k, _ in diffs))
+        key = "C02|" + "+".join(kinds[:3])
+        if "two-resources-one-path" in kinds:
+            key = "C02|two-resources-one-path"
+        chk.violation(key, "%s: %s; program %r" % (fam, diffs[0][1][:300], text[:200]), {"files": hc["files"], "family": fam, "differences": diffs[:6]})
+    return total, compared, same
+
+
 def run(tier):
     chk = Check("C02", tier)
     rng = random.Random(common.seed())
@@ -55,40 +80,46 @@ def run(tier):
             if got != [strip(st) for st in c["prog"]["mods"][c["prog"]["main"]]]:
                 raise common.ToolError("renderer cross-check failed (tree2ast(render(p)) != p) on %r" % rp["files"][rp["main"]][:200])
         obs = run_oalv_parallel("compile", cases, jobs=8)
-        same = 0
-        for c, hc, o in zip(members, cases, obs):
-            if o.get("outcome") == "skipped":
-                continue
-            real = progs.real_outcome(o)
-            total += 1
-            if real["k"] != "OK":
-                continue                     # rejected / crashing members are C07's and C01's subject
-            compared += 1
-            diffs = absdoc.compare_docs(absdoc.expected_doc(c), absdoc.abstract_doc(o["doc"], K))
-            text = hc["files"][hc["main"]]
-            if not diffs:
-                same += 1
-                chk.cov["traces_validated_against_impl"] += 1
-                continue
-            kinds = sorted(set(k for k, _ in diffs))
-            key = "C02|" + "+".join(kinds[:3])
-            if "two-resources-one-path" in kinds:
-                key = "C02|two-resources-one-path"
-            chk.violation(key, "%s: %s; program %r" % (fam, diffs[0][1][:300], text[:200]), {"files": hc["files"], "family": fam, "differences": diffs[:6]})
+        t, c_, same = compare_members(chk, fam, members, cases, obs)
+        total += t
+        compared += c_
         chk.notes.setdefault("members", {})[fam] = {"accepted_by_the_model": len(members), "documents_equal": same}
         if members:
             k = len(members) // 2
             chk.sample({"family": fam, "program": cases[k]["files"][cases[k]["main"]], "denotation_paths": members[k]["paths"]})
+    # random composite programs (gen.py): Den.tla in oracle mode, one initial state per program
+    import gen
+    import oracle
+    n = 300 if tier == "quick" else 4000
+    ps = gen.programs(common.seed() * 1000 + 2, n, p_bad=0.0)
+    rps = [render.render_program(p, style=i % 4) for i, p in enumerate(ps)]
+    oracle.crosscheck(ps, rps)
+    cases = [{"main": rp["main"], "files": rp["files"], "want": {"doc": True}} for rp in rps]
+    obs = run_oalv_parallel("compile", cases, jobs=8)
+    okidx = [i for i, o in enumerate(obs) if o.get("outcome") == "ok" and progs.real_outcome(o)["k"] == "OK"]
+    dens, rs = oracle.den([ps[i] for i in okidx], chunk=200, timeout=3000)
+    for r in rs:
+        chk.add_tlc(r)
+    keep = [(d, cases[i], obs[i]) for i, d in zip(okidx, dens) if d is not None and d["defined"]]
+    undefined = sum(1 for d in dens if d is None or not d["defined"])
+    if undefined:
+        chk.drift("C02|composites|model-rejects-accepted", "Kinds.tla rejects %d random composite programs the real compiler accepts" % undefined)
+    t, c_, same = compare_members(chk, "composites", [k[0] for k in keep], [k[1] for k in keep], [k[2] for k in keep])
+    total += t
+    compared += c_
+    chk.notes.setdefault("members", {})["composites"] = {"generated": n, "accepted_and_evaluated": len(okidx), "documents_equal": same}
     chk.cov["evaluations"] = total
     chk.cov["distinct_nontrivial"] = compared
     chk.cov["exhaustive"] = True
     chk.cov["rule"] = ("families of DenMC.tla: Ranges (pairs/triples of contents over 4 statuses x 3 media types, through let and a function), Uris (8 templates, concat of "
                        "every pair, through let), Xfers (8 transfer lists, through let on two resources), Schemas (all forms to depth 2, marks in three places, through "
-                       "@let), RecInst, RecGraphs(2), FnPos, PosShape (thorough); non-trivial = accepted and evaluated by the real compiler, so that a document was compared")
+                       "@let), RecInst, RecGraphs(2), FnPos, PosShape (thorough); plus seeded random composite programs (driver/gen.py: several declarations of all sorts, functions, an imported module, recursion) "
+                       "judged by Den.tla in oracle mode (300 quick / 4000 thorough generated; the accepted and evaluated ones are compared); non-trivial = accepted and evaluated by the real compiler, so that a document was compared")
     chk.assumptions = [
         "annotations are not part of this fragment of the reference semantics (their placement is covered only through determinism/agreement checks)",
         "recursive schemas are compared as trees unfolded to structural depth %d on both sides; object properties are compared as sets" % K,
-        "contents that share a status carry equal headers; methods of the transfers of one relation are disjoint",
+        "headers belong to a response status: every header declared by a content of that status must be in the document; contents of one status that disagree on the schema of one header are not compared on that header",
+        "of two contents of one transfer with the same (status, media type) as written the later stands (Den.tla LastWins); methods of the transfers of one relation are disjoint",
         "the renderer is cross-checked on every member (tree2ast(render(p)) = p)",
     ]
     return chk.finish()
